@@ -540,6 +540,15 @@ def judge_producer(world, h, relaxed):
                 world.violate('C06', 'collateral-handler', fe, 'dispatch',
                               f'after malformed input, Interest {_fmt_name(k[1])} no longer reaches handler {k[0]}')
 
+    # Dispatcher.dispatch reports truthfully whether some callback took the Interest
+    for e in world.events:
+        if e['k'] == 'dispatch-ret':
+            key_n = None
+            took = sum(1 for x in h.hcalls if x['nonce'] == e['nonce'] and list(x['name']) == list(e['name']))
+            if bool(e['ret']) != bool(took):
+                world.violate('C04', 'dispatch-return', fe, 'dispatcher',
+                              f'Dispatcher.dispatch returned {e["ret"]!r} for {_fmt_name(e["name"])} but {took} callback(s) ran')
+            del key_n
     # validators must not be consulted for plain Interests
     for who, evs in h.val_start.items():
         if who[0] == 'route':
